@@ -809,12 +809,12 @@ def run(ctx):
             stage_a.append(r[0])
             if r[1]:
                 stage_b.append(r[1])
-    for k in range(ctx.n(80, 1500)):
+    for k in range(ctx.n(80, 700)):
         r = _synthetic(ctx, rng, k)
         ctx.count("synthetic_ppc_cases")
         if r:
             stage_b.append(r)
-    for k in range(ctx.n(45, 1100)):
+    for k in range(ctx.n(45, 500)):
         r = _full_case(ctx, rng, k)
         ctx.count("generated_nets")
         if r:
